@@ -211,6 +211,7 @@ type execOut struct {
 	Outside bool   `json:"outside,omitempty"`
 	Deep    bool   `json:"deep,omitempty"`
 	after   tree
+	helper  bool // executed in the helper process
 }
 
 // exec materialises the state, runs the call once under the given budget and reads the tree back.
@@ -247,9 +248,10 @@ func (w *worker) exec(b *backend, item int, t tree, ci int, budget int64, cancel
 			return execOut{}, false
 		case died:
 			w.out.HelperDeaths++
-			return execOut{R: result{Crashed: r.Crashed, Err: stderr, Ops: r.Ops}}, true
+			return execOut{R: result{Crashed: r.Crashed, Err: stderr, Ops: r.Ops}, helper: true}, true
 		}
 		hx.after = parseKey(hx.After)
+		hx.helper = true
 		w.out.BackendOps += hx.R.Ops
 		return hx, true
 	}
@@ -372,7 +374,7 @@ func (w *worker) evalTransition(st stateRec, from int, t tree, ci int, collect b
 	var after [2]tree
 	var clause [2]string
 	var detail [2]map[string]any
-	var isPending, runaway [2]bool
+	var isPending, runaway, viaHelper [2]bool
 	emptyArg := c.A == "" || (c.isTwoArg() && c.B == "")
 	guardedEmpty := false
 	for i, b := range bs {
@@ -383,6 +385,7 @@ func (w *worker) evalTransition(st stateRec, from int, t tree, ci int, collect b
 		r := x.R
 		res[i] = r
 		after[i] = x.after
+		viaHelper[i] = x.helper
 		w.out.Outcomes[c.Op+"|"+o.Class+"|"+b.name+"|"+describeResult(r)]++
 		if r.Crashed == "" && (r.Exhausted || r.Killed) {
 			runaway[i] = true
@@ -468,8 +471,10 @@ func (w *worker) evalTransition(st stateRec, from int, t tree, ci int, collect b
 	if w.cancel && c.takesContext() && terminated {
 		for j := 0; j <= 5; j++ {
 			for i, b := range bs {
-				if int64(j) > res[i].Ops {
-					continue
+				if int64(j) > res[i].Ops && !viaHelper[i] {
+					continue // the cancellation point lies behind the call's last backend operation
+					// (the operation count of an execution made in the helper depends on map iteration order
+					// inside MemMapFs.Rename and is not used)
 				}
 				x, ok := w.exec(b, from, t, ci, probeBudget, j)
 				if !ok {
